@@ -153,7 +153,6 @@ Definition ext_toks (e : option (Z * option Z)) : list tok :=
   | Some (n, None) => [TInt n; none_t]
   | Some (n, Some v) => [TInt n; TInt v]
   end.
-Definition ext_value (e : option (Z * option Z)) : option Z := match e with Some (_, v) => v | None => None end.
 
 Definition handle (ts : list tok) : list tok :=
   match ts with
